@@ -46,6 +46,7 @@ func NewPhout(fs afero.Fs, conf PhoutConfig) (a Aggregator, err error) {
 	a = &phoutAggregator{
 		config: conf,
 		sink:   make(chan *Sample, conf.SampleQueueSize),
+		done:   make(chan struct{}),
 		writer: bufio.NewWriterSize(file, conf.Buffer.BufferSizeOrDefault()),
 		buf:    make([]byte, 0, 1024),
 		file:   file,
@@ -56,16 +57,25 @@ func NewPhout(fs afero.Fs, conf PhoutConfig) (a Aggregator, err error) {
 type phoutAggregator struct {
 	config PhoutConfig
 	sink   chan *Sample
+	done   chan struct{} // closed when Run returns: nobody reads the sink any more
 	writer *bufio.Writer
 	buf    []byte
 	file   io.Closer
 }
 
-func (a *phoutAggregator) Report(s *Sample) { a.sink <- s }
+func (a *phoutAggregator) Report(s *Sample) {
+	select {
+	case a.sink <- s:
+	case <-a.done:
+		// The aggregator has stopped (failed or cancelled): a full queue must not block the gun for ever.
+		releaseSample(s)
+	}
+}
 
 func (a *phoutAggregator) Run(ctx context.Context, _ core.AggregatorDeps) error {
 	shouldFlush := time.NewTicker(1 * time.Second)
 	defer func() {
+		close(a.done)
 		_ = a.writer.Flush()
 		_ = a.file.Close()
 		shouldFlush.Stop()
